@@ -7,6 +7,10 @@ ROOT = os.path.dirname(os.path.dirname(os.path.abspath(__file__)))
 
 # id -> (technique, level text, level note, design ref)
 CHECKS = {
+    "C07": ("Lean 4 theorems over a hand model of the converters/hashes/equality + exhaustive correspondence run",
+            "Kernel-checked theorems for all values, both integer modes and any hash function: toClvm(fromClvm v)=v; rich tree hash = consensus tree hash of the CLVM form; symbol-table hash likewise on readable values; == is byte identity of fixed-mode encodings and equal values hash alike on readable values (reader/converter outputs, proved readable); the Readable hypothesis shown necessary by a decide witness. The hand model is tied to the code by running model and implementation on every atom of length 0..2 (0..3 thorough), small trees, boundary/random atoms in both modes, and the property oracle is evaluated on the implementation alone.",
+            "Lean kernel + the three standard axioms; model<->code tie is differential (generator-bounded); SHA-256 abstract in theorems; std Hash compared through DefaultHasher outputs.",
+            "DESIGN.md §4 C07"),
 }
 
 NOT_YET = {
